@@ -152,17 +152,19 @@ type H2End struct {
 	// HPACK table-size discipline: after this end lowered SETTINGS_HEADER_TABLE_SIZE and the
 	// change was acknowledged, the next header block must start with a dynamic table size update
 	// that respects it (RFC 7541 4.2), unless one has been seen since the SETTINGS were sent.
-	tableLimit     int
-	sawTableUpdate bool
-	mustUpdateNext bool
-	pendingTable   []int // per un-acked SETTINGS frame: advertised table size or -1
+	tableLimit      int
+	sawTableUpdate  bool
+	curTable        int // dynamic table size the peer's encoder last announced in-band (4096 at the start)
+	mustUpdateNext  bool
+	pendingTable    []int  // per un-acked SETTINGS frame: advertised table size or -1
+	pendingComplied []bool // ... and whether the peer's encoder has announced a size that fits it
 }
 
 func newH2End(k *kernel.K, name string, client bool, c *simnet.Conn) *H2End {
 	e := &H2End{k: k, Name: name, Client: client, C: c,
 		sendConn: 65535, peerInitWin: 65535, sendStream: map[uint32]int{},
 		CreditStream: map[uint32]int{}, SentFlow: map[uint32]int{},
-		advInit: []int{65535}, advFrame: []int{16384}, tableLimit: 4096,
+		advInit: []int{65535}, advFrame: []int{16384}, tableLimit: 4096, curTable: 4096,
 		GrantStream: map[uint32]int{}, RecvFlow: map[uint32]int{}, pendStream: map[uint32]int{},
 		opened: map[uint32]bool{}, rstSeen: map[uint32]bool{}}
 	e.wfr = http2.NewFramer(&e.wbuf, nil)
@@ -410,6 +412,7 @@ func (e *H2End) Do(op *H2Op) {
 			e.sawTableUpdate = false
 		}
 		e.pendingTable = append(e.pendingTable, tbl)
+		e.pendingComplied = append(e.pendingComplied, false)
 		// (the values of one frame are processed in order with no frame processing between them:
 		// of several values for one identifier only the last is ever in force)
 		last := map[http2.SettingID]int{}
@@ -426,7 +429,9 @@ func (e *H2End) Do(op *H2Op) {
 			case http2.SettingMaxFrameSize:
 				e.advFrame = append(e.advFrame, int(s.Val))
 			case http2.SettingHeaderTableSize:
-				e.dec.SetAllowedMaxDynamicTableSize(s.Val)
+				// (a lowered limit binds the peer's encoder only once this frame is acknowledged:
+				// until then a size the peer chose under an earlier, larger limit is legal)
+				e.syncAllowedTable()
 			}
 		}
 	case "wupdate":
@@ -520,6 +525,18 @@ func (e *H2End) frameSizeCheck(ev H2Ev, ln int) {
 	}
 }
 
+// syncAllowedTable sets the largest dynamic table size this end's decoder accepts in a size
+// update: the largest of the value in force and the values advertised but not acknowledged yet.
+func (e *H2End) syncAllowedTable() {
+	limit := e.tableLimit
+	for _, t := range e.pendingTable {
+		if t > limit {
+			limit = t
+		}
+	}
+	e.dec.SetAllowedMaxDynamicTableSize(uint32(limit))
+}
+
 func (e *H2End) finishHeaders(end bool) {
 	ev := e.hdrEv
 	e.hdrEv = nil
@@ -535,14 +552,45 @@ func (e *H2End) finishHeaders(end bool) {
 			return
 		}
 		e.sawTableUpdate = true
+		e.curTable = upd
 		e.mustUpdateNext = false
+		// an announced size that fits a lowered limit not yet acknowledged: the encoder has
+		// complied with that SETTINGS frame already (it announces the smallest size in between
+		// before the final one)
+		if _, lo, _ := leadingTableSizeUpdates(e.hdrBuf); true {
+			for i, t := range e.pendingTable {
+				if t >= 0 && lo <= t {
+					e.pendingComplied[i] = true
+				}
+			}
+		}
 	} else if e.mustUpdateNext {
-		e.RdErr = fmt.Errorf("header block on stream %d does not start with a dynamic table size update although this end lowered SETTINGS_HEADER_TABLE_SIZE to %d and the change was acknowledged: the encoder ignores the advertised table size", ev.Stream, e.tableLimit)
+		e.RdErr = fmt.Errorf("header block on stream %d does not start with a dynamic table size update although this end lowered SETTINGS_HEADER_TABLE_SIZE to %d and the change was acknowledged: the encoder ignores the advertised table size (block starts %x; advertised and not yet acknowledged: %v)", ev.Stream, e.tableLimit, clipBytes(e.hdrBuf, 12), e.pendingTable)
 		return
 	}
-	fields, err := e.dec.DecodeFull(e.hdrBuf)
+	// The hpack decoder of the x/net version pinned by the repository rejects a second dynamic
+	// table size update at the start of one block, although RFC 7541 section 4.2 provides for two
+	// (the smallest size in between, then the final one): the leading updates are fed one by one.
+	block := e.hdrBuf
+	for len(block) > 0 && block[0]&0xe0 == 0x20 {
+		n := 1
+		if block[0]&0x1f == 0x1f {
+			for n < len(block) && block[n]&0x80 != 0 {
+				n++
+			}
+			n++
+		}
+		if n >= len(block) {
+			break
+		}
+		if _, err := e.dec.Write(block[:n]); err == nil {
+			e.dec.Close()
+		}
+		block = block[n:]
+	}
+	fields, err := e.dec.DecodeFull(block)
 	if err != nil {
-		e.RdErr = fmt.Errorf("header block on stream %d does not decode under this end's HPACK state: %v", ev.Stream, err)
+		e.RdErr = fmt.Errorf("header block on stream %d does not decode under this end's HPACK state: %v (block %x)", ev.Stream, err, clipBytes(e.hdrBuf, 48))
 		return
 	}
 	ev.Fields = fields
@@ -627,12 +675,15 @@ func (e *H2End) onFrame(f http2.Frame, ln int) {
 				acked := e.unackedSettings[0]
 				e.unackedSettings = e.unackedSettings[1:]
 				if tbl := e.pendingTable[0]; tbl >= 0 {
-					if tbl < e.tableLimit && !e.sawTableUpdate {
+					// (the encoder has complied already when the size it last announced fits)
+					if tbl < e.tableLimit && e.curTable > tbl && !e.pendingComplied[0] {
 						e.mustUpdateNext = true
 					}
 					e.tableLimit = tbl
 				}
 				e.pendingTable = e.pendingTable[1:]
+				e.pendingComplied = e.pendingComplied[1:]
+				e.syncAllowedTable()
 				last := map[http2.SettingID]int{}
 				for i, s := range acked {
 					last[s.ID] = i
@@ -695,6 +746,33 @@ func (e *H2End) onFrame(f http2.Frame, ln int) {
 }
 
 // leadingTableSizeUpdate reports the (last) dynamic table size update a header block starts with.
+// leadingTableSizeUpdates returns the last and the smallest of the dynamic table size updates a
+// header block starts with.
+func leadingTableSizeUpdates(b []byte) (last, min int, found bool) {
+	min = 1 << 31
+	for len(b) > 0 && b[0]&0xe0 == 0x20 {
+		v := int(b[0] & 0x1f)
+		b = b[1:]
+		if v == 0x1f {
+			shift := 0
+			for len(b) > 0 {
+				c := b[0]
+				b = b[1:]
+				v += int(c&0x7f) << shift
+				shift += 7
+				if c&0x80 == 0 {
+					break
+				}
+			}
+		}
+		found, last = true, v
+		if v < min {
+			min = v
+		}
+	}
+	return last, min, found
+}
+
 func leadingTableSizeUpdate(b []byte) (int, bool) {
 	found, val := false, 0
 	for len(b) > 0 && b[0]&0xe0 == 0x20 {
@@ -821,3 +899,10 @@ func fieldsString(fs []hpack.HeaderField) string {
 }
 
 var _ = io.EOF
+
+func clipBytes(b []byte, n int) []byte {
+	if len(b) > n {
+		return b[:n]
+	}
+	return b
+}
